@@ -852,6 +852,10 @@ def _d_update(m, o, args, kw, node):
         a = m.force(args[0], node)
         if isinstance(a, SDict):
             o.d.update(a.d)
+        elif isinstance(a, SADict):
+            for k, v in zip(a.keys, a.vals):
+                m.setitem(o, k, v, node)
+            return
         else:
             for kv in m.iter_concrete(a, node):
                 k, v = m.iter_concrete(kv, node)
@@ -966,7 +970,24 @@ def _ad_pop(m, o, args, kw, node):
     raise PyRaise("KeyError", node)
 
 
+def _ad_update(m, o, args, kw, node):
+    m.note_write(o)
+    if args:
+        a = m.force(args[0], node)
+        if isinstance(a, SADict):
+            pairs = list(zip(a.keys, a.vals))
+        elif isinstance(a, SDict):
+            pairs = list(a.d.items())
+        else:
+            pairs = [tuple(m.iter_concrete(kv, node)) for kv in m.iter_concrete(a, node)]
+        for k, v in pairs:
+            m.setitem(o, k, v, node)
+    for k, v in kw.items():
+        m.setitem(o, k, v, node)
+
+
 ADICT_METHODS = {
+    "update": _ad_update,
     "get": _ad_get,
     "pop": _ad_pop,
     "values": lambda m, o, args, kw, node: SList(list(o.vals)),
@@ -1068,7 +1089,17 @@ def _s_issubset(m, o, args, kw, node):
     return all(x in items for x in o.s)
 
 
+def _s_difference_update(m, o, args, kw, node):
+    m.note_write(o)
+    for a in args:
+        for x in m.iter_concrete(a, node):
+            i = _s_find(m, o, m.force(x, node), node)
+            if i is not None:
+                del o.s[i]
+
+
 SET_METHODS = {
+    "difference_update": _s_difference_update,
     "add": _s_add,
     "remove": _s_remove,
     "discard": _s_discard,
@@ -1285,3 +1316,15 @@ def s_check(m, args, kw, node):
 def s_assume(m, args, kw, node):
     m.assume(m.truth(args[0], node))
     return True
+
+
+@specfn("arbitrary")
+def s_arbitrary(m, args, kw, node):
+    """arbitrary(name, T): a fresh value of type T chosen by the environment (recorded for native replay)"""
+    name = args[0]
+    t = args[1]
+    if isinstance(t, ExtObj) and t.kind == "specdata":
+        t = t.data["value"]
+    v = m.fresh(t, "arb." + str(name), getattr(m, "shape", None))
+    m.abstract_returns.append(("arbitrary", str(name), v))
+    return v
